@@ -115,7 +115,7 @@ def run_case(item):
         out = e.copy().permute(*perms)
         ref = term
         for p, q in perms:      # one after another, sympy's simultaneous subs
-            ref = ref.subs({p: q, q: p}, simultaneous=True)
+            ref = ref.xreplace({p: q, q: p})
         res["perms"] = str(perms)
         res["ref"] = ref
         if out.sympy != ref:
@@ -156,7 +156,7 @@ def run_case(item):
         rng.shuffle(items_)
         m = dict(items_)
         out = Expr(term.subs(order_substitutions(m)), target_idx=None)
-        ref = term.subs(m, simultaneous=True)
+        ref = term.xreplace(m)
         res["map"] = str(m)
         res["ref"] = ref
         if out.sympy != ref:
